@@ -4,7 +4,7 @@ LEVEL = "other"
 APP = "routee-compass"
 EP = APP + "/src/plugin/input/default/edge_rtree/edge_rtree_input_plugin.rs"
 wit = KaniUnit("c16_wit", APP, modules=[dict(file=EP, src="c16_edge_tolerance_wit.rs")], harnesses=[])
-wit.native_witnesses = ["c16_wit_edge_tolerance_is_a_distance_on_the_ground"]
+wit.native_witnesses = ["c16_wit_edge_tolerance_is_a_distance_on_the_ground", "c16_wit_tree_measure_and_tolerance_use_the_same_location"]
 em = VerusUnit("c16_edge_match", "c16_edge_match", rlimit=30, paired_kani=(wit, []))
 UNITS = [em, wit]
 EXPLANATION = ("ONE kernel of C16, NOT the agreement with an exhaustive scan. Decided (Verus, verbatim `search` and `within_tolerance` of the edge map-matching plugin, any tree, coordinate, tolerance and unit, "
